@@ -35,10 +35,10 @@ type openOnly struct{ f iofs.FS }
 func (o openOnly) Open(name string) (iofs.File, error) { return o.f.Open(name) }
 
 // newLower builds the static lower layer of storeOverlayMixed.
-func newLower() *memfs.FS {
+func newLower(store string) *memfs.FS {
 	l := memfs.New()
 	for f, v := range lowerLayer {
-		l.Write(f, variants[f][v].Content, toTime(lowerMt))
+		l.Write(f, variants[f][v].Content, toTime(lowerMtOf(store)))
 	}
 	return l
 }
@@ -46,8 +46,11 @@ func newLower() *memfs.FS {
 // mount presents base the way the store says: as it is, or as the Open-only upper layer of an
 // overlay whose lower layer (a plain memfs with Stat) holds older versions of the same files.
 func mount(store string, base iofs.FS, lower *memfs.FS) iofs.FS {
-	if store == storeOverlayMixed {
+	switch store {
+	case storeOverlayMixed:
 		return vuego.NewOverlayFS(openOnly{base}, lower)
+	case storeOverlayZeroLower:
+		return vuego.NewOverlayFS(base, lower)
 	}
 	return base
 }
